@@ -274,16 +274,20 @@ def _root_.FactsTraits.Sig.elidedIsRecv (s : Sig) : Bool :=
   match s.recv with
   | .refSelf | .refMutSelf => true
   | .thisRef | .thisRefMut => s.otherInputs.isEmpty
+  | .none => s.otherInputs.length == 1     -- no handle involved: the borrow is derived from the only input
   | _ => false
 
 /-- a named region is bounded by the handle: it *is* the receiver's (named) region, or a lifetime of
 the `Self` type while a `Self`-typed receiver is present, or some such region is declared to outlive
-it (`'s: 'o`).  A method-level lifetime that no receiver constrains is not. -/
+it (`'s: 'o`).  A method-level lifetime that no receiver constrains is not.  A function without any
+handle-typed receiver (`fn first<'q>(xs: &'q [u8]) -> &'q u8`) lends nothing of a handle: its output
+only has to be tied to one of its inputs. -/
 def _root_.FactsTraits.Sig.namedOk (s : Sig) : Nat → String → Bool
   | 0, _ => false
   | k + 1, n =>
     (s.recvIsRef && s.recvRegion == .named n) ||
     (s.hasSelfRecv && s.selfLts.contains n) ||
+    (s.recv == .none && s.otherInputs.any (fun o => o.region == .named n)) ||
     s.outlives.any (fun ab => ab.2 == n && ab.1 != n && s.namedOk k ab.1)
 
 def _root_.FactsTraits.Sig.occOk (s : Sig) (o : RegionOcc) : Bool :=
